@@ -135,3 +135,187 @@ SCHEMES.update({
                   sig_oracle(modn=('m', 'mu0', 'mu1'), vers=('ver', 'onv')), pc=True,
                   opts=lambda rng: dict(ord=rng.below(1 << 16))),
 })
+
+
+# ----------------------------------------------------------------------------- C06 batch 2
+
+def o_agg(modulus_of):
+    def oracle(s, ctx, v, out):
+        if 'sum' not in s.out:
+            return
+        mod = modulus_of(s)
+        k = max(1, min(4, int(s.opts.get('k', 2))))
+        exp = 0
+        for i in range(k):
+            exp += s.deliver.get('c%d' % i, 1) * s.out.get('pt%d' % i, 0)
+        out.evals += 1
+        wraps = exp >= mod
+        if wraps:
+            out.probe('homomorphic-sum-wraps-modulus')
+        out.keys.add((s.scheme, tuple(sorted(s.deliver.values())), wraps, s.opts.get('cls'), s.opts.get('n')))
+        if s.out['sum'] != exp % mod:
+            v.bad('wrong-sum' + ('|s=%d' % (1 + int(s.opts.get('cls', 0)) % 3) if s.scheme == 'ghpe' else ''), 'combined ciphertext decrypts to %x, the delivered plaintexts combine to %x' % (s.out['sum'], exp % mod))
+    return oracle
+
+
+def o_rabin(s, ctx, v, out):
+    if 'dec' not in s.rc:
+        return
+    rc = s.rc['dec'][0]
+    out.evals += 1
+    out.keys.add(('rabin', tuple(s.faults()), rc, min(len(s.msg), 90)))
+    if not s.changed('ct'):
+        if rc != '0' or s.out.get('pt') != s.msg:
+            v.bad('roundtrip', 'honest ciphertext: rc=%s, plaintext %s, sent %s' % (rc, s.out.get('pt', b'').hex()[:60], s.msg.hex()[:60]))
+    else:
+        out.fault('altered-ciphertext')
+        if rc == '0':
+            v.bad('expected=reject|got=data', 'a corrupted Rabin ciphertext passed the redundancy check')
+
+
+def o_ibe(s, ctx, v, out):
+    if 'dec' not in s.rc:
+        return
+    rc = s.rc['dec'][0]
+    out.evals += 1
+    wrong = int(s.opts.get('cls', 0)) & 1
+    changed = [f for f in ('pub', 'prv', 'ct') if s.changed(f)]
+    out.keys.add(('ibe', tuple(s.faults()), rc, wrong, min(len(s.msg), 70)))
+    if wrong:
+        out.fault('wrong-identity-key')
+        if rc == '0' and s.out.get('pt') == s.msg and len(s.msg) > 4:
+            v.bad('wrong-identity-decrypts', "another identity's private key recovered the plaintext")
+    elif not changed:
+        if rc != '0' or s.out.get('pt') != s.msg:
+            v.bad('roundtrip', 'honest ciphertext: rc=%s plaintext %s (sent %s)' % (rc, s.out.get('pt', b'').hex()[:60], s.msg.hex()[:60]))
+
+
+def o_bgn(s, ctx, v, out):
+    if 'm' not in s.out:
+        return
+    m = s.out['m']
+    m1, m2, m3 = (m >> 16) & 255, (m >> 8) & 255, m & 255
+    out.evals += 1
+    out.keys.add(('bgn', m1, m2, m3))
+    if 'sum1' in s.out and s.out['sum1'] != m1 + m3:
+        v.bad('wrong-sum', 'Enc1(%d) + Enc1(%d) decrypts to %d' % (m1, m3, s.out['sum1']))
+    if 'prod' in s.out and s.out['prod'] != (m1 + m3) * m2:
+        v.bad('wrong-product', '(%d + %d) * %d decrypts to %d' % (m1, m3, m2, s.out['prod']))
+    if 'sum1' not in s.out or 'prod' not in s.out:
+        v.bad('decrypt-failed', 'honest BGN ciphertexts did not decrypt: %s' % s.rc)
+
+
+def o_sokaka(s, ctx, v, out):
+    if 'keyA' not in s.out or 'keyB' not in s.out:
+        if 'keyA' in s.rc and 'keyB' in s.rc:
+            v.bad('key-derivation-failed', 'rc %s' % s.rc)
+        return
+    out.evals += 1
+    other = int(s.opts.get('cls', 0)) & 1
+    out.keys.add(('sokaka', other, s.opts.get('klen')))
+    if not other and s.out['keyA'] != s.out['keyB']:
+        v.bad('keys-differ', 'alice derived %s, bob %s' % (s.out['keyA'].hex(), s.out['keyB'].hex()))
+    if other and s.out['keyA'] == s.out['keyB'] and len(s.out['keyA']) >= 8:
+        v.bad('third-party-derives-key', "carol's key equals the alice-bob key")
+
+
+def o_mt(s, ctx, v, out):
+    n = ctx['param']['n']
+    if 'r0' not in s.out or 'r1' not in s.out:
+        return
+    out.evals += 1
+    ch = [f for f in s.m if sint(s.m[f]['val'] or '0') % n != int.from_bytes(s.m[f]['orig'], 'big') % n or s.m[f]['dec'] != 'ok']
+    out.keys.add(('mt', tuple(s.faults()), bool(ch), s.opts.get('cls')))
+    if not ch:
+        if (s.out['r0'] + s.out['r1']) % n != s.out['x'] * s.out['y'] % n:
+            v.bad('wrong-product', 'shares recombine to %x, x*y mod n = %x' % ((s.out['r0'] + s.out['r1']) % n, s.out['x'] * s.out['y'] % n))
+
+
+def o_pd(s, ctx, v, out):
+    if 'ver' not in s.ver:
+        return
+    got = s.ver['ver']
+    if got == 'decode-failed':
+        return
+    out.evals += 1
+    ch = [f for f in s.m if s.changed(f)]
+    out.keys.add((s.scheme, tuple(s.faults()), got, bool(ch)))
+    if got == '1' and s.out.get('match') != 1:
+        v.bad('accepted-wrong-pairing-value', 'the client accepted a value that is not e(P, Q) (altered: %s)' % ch)
+    if not ch and got != '1':
+        v.bad('expected=accept|got=reject', 'an honest helper was rejected')
+    if ch:
+        out.fault('dishonest-helper')
+
+
+def o_pbpsi(s, ctx, v, out):
+    sets = [l for l in s.lines if l.startswith('SETS ')]
+    if not sets or 'inter' not in s.out:
+        if 'int' in s.rc and s.rc['int'][0] != '0' and sets:
+            d = P.kvs(sets[0].split())
+            if int(d['m']) > 0:
+                v.bad('intersection-failed', 'cp_pbpsi_int reported an error for m=%s n=%s' % (d['m'], d['n']))
+        return
+    d = P.kvs(sets[0].split())
+    m, n, ov = int(d['m']), int(d['n']), int(d['ov'])
+    out.evals += 1
+    out.keys.add(('pbpsi', m, n, ov))
+    if s.out['inter'] != (1 << ov) - 1 or s.out['interlen'] != ov:
+        v.bad('wrong-intersection', 'm=%d n=%d overlap=%d: output mask %x, length %d' % (m, n, ov, s.out['inter'], s.out['interlen']))
+
+
+def o_ped(s, ctx, v, out):
+    n = ctx['param']['n']
+    if 'open' not in s.ver:
+        return
+    got = s.ver['open']
+    if got == 'decode-failed':
+        return
+    out.evals += 1
+
+    def ch(f):
+        r = s.m[f]
+        if r['dec'] != 'ok':
+            return True
+        if r['type'] == 'bn':
+            return sint(r['val']) % n != int.from_bytes(r['orig'], 'big') % n
+        return s.changed(f)
+    changed = [f for f in ('c', 'r', 'x') if f in s.m and ch(f)]
+    out.keys.add(('ped', tuple(s.faults()), got, bool(changed)))
+    if any(s.m[f]['kind'] in ('v_addord', 'v_ord') for f in ('r', 'x') if f in s.m):
+        return
+    if not changed:
+        if got != '1':
+            v.bad('expected=open|got=reject', 'an unmodified opening does not open the commitment')
+        if s.ver.get('homo', '1') != '1':
+            v.bad('not-homomorphic', 'c + c2 does not open to (r + r2, x + x2)')
+    elif got == '1':
+        v.bad('expected=reject|got=open', 'the commitment opened although %s changed' % changed)
+
+
+def aggopts(rng):
+    # cls + 1 is the Damgard-Jurik parameter s; s = 3 is drawn rarely (known finding: decryption is wrong there)
+    return dict(k=rng.randint(1, 4), cls=rng.choice([0, 0, 0, 0, 1, 1, 1, 1, 2]), n=rng.choice([0, 0, 1, 2]))
+
+
+AGGF = [('c0', 'drop'), ('c1', 'dup'), ('c0', 'dup'), ('c2', 'drop'), ('c1', 'drop'), ('c3', 'dup')]
+GTH = [('g0', k) for k in P.GT_FAULTS] + [('g1', k) for k in P.GT_FAULTS] + [('g2', 'v_rand'), ('g3', 'v_inv')]
+
+SCHEMES.update({
+    'ghpe': Spec('C06', 7, dict(), o_agg(lambda s: s.key['n'] ** (1 + int(s.opts.get('cls', 0)) % 3)), opts=aggopts, extra_faults=AGGF),
+    'bdpe': Spec('C06', 7, dict(), o_agg(lambda s: 0xFB), opts=lambda rng: dict(k=rng.randint(1, 4), n=rng.below(2), mlen=8),
+                 extra_faults=AGGF),
+    'rabin': Spec('C06', 4, dict(ct='bytes'), o_rabin, opts=lambda rng: dict(mlen=rng.choice([1, 2, 10, 31, 32, 33, 60, 80, 84, 85]))),
+    'ibe': Spec('C06', 6, dict(pub='g1', prv='g2', ct='bytes'), o_ibe, pc=True,
+                opts=lambda rng: dict(cls=rng.choice([0, 0, 0, 1]), mlen=rng.choice([1, 5, 16, 31, 32, 33, 64, 100]))),
+    'bgn': Spec('C06', 4, dict(), o_bgn, pc=True, weight=5, opts=lambda rng: dict(ord=rng.below(11 * 11 * 7))),
+    'sokaka': Spec('C06', 5, dict(), o_sokaka, pc=True, weight=6, opts=lambda rng: dict(cls=rng.choice([0, 0, 1]), klen=rng.choice([16, 32, 48]))),
+    'mt': Spec('C06', 6, dict(d0='bn', d1='bn', e0='bn', e1='bn'), o_mt, opts=lambda rng: dict(cls=rng.choice([0, 0, 0, 1]))),
+    'pdpub': Spec('C06', 5, dict(), o_pd, pc=True, extra_faults=GTH, weight=6),
+    'lvpub': Spec('C06', 5, dict(), o_pd, pc=True, extra_faults=GTH[:16], weight=6),
+    'pdprv': Spec('C06', 4, dict(), o_pd, pc=True, extra_faults=GTH, weight=6),
+    'lvprv': Spec('C06', 4, dict(), o_pd, pc=True, extra_faults=GTH, weight=6),
+    'pbpsi': Spec('C06', 4, dict(), o_pbpsi, pc=True, weight=6,
+                  opts=lambda rng: dict(k=rng.below(5), n=rng.below(5), cls=rng.below(5))),
+    'ped': Spec('C06', 4, dict(c='ec', r='bn', x='bn'), o_ped),
+})
